@@ -17,7 +17,7 @@ LEVEL = "exploration"
 RULE = (
   "case=(model seed): generated colliding scene (plane, free/ball/hinge/slide bodies, mocap, equalities, userdata, actuators "
   "incl. dyntype=user actdim 2-3 and dcmotor so that na>nu, delayed actuators/sensors, optionally sleeping enabled); per case "
-  "6 scenarios = (nworld 2-4, random per-world states, history of 4-14 steps with random ctrl/mocap inputs, mask kind "
+  "3-5 scenarios = (nworld 2-4, random per-world states, history of 4-14 steps with random ctrl/mocap inputs, mask kind "
   "none/all/empty/single/world0-only/all-but-0/random, mask dtype bool/int32/uint8/int64). Non-trivial: the history changed "
   "qpos of every world and >=1 world was selected or unselected with contacts present; distinct by hash(xml, states, mask)."
 )
@@ -69,7 +69,7 @@ def cases(tier, seed):
   out = []
   for i in range(n):
     sl = i % 4 == 3
-    out.append({"id": f"m{seed}_{i}", "seed": seed * 100000 + i, "sleep": sl, "nscen": 4 if sl else 6, "weight": 2 if sl else 1})
+    out.append({"id": f"m{seed}_{i}", "seed": seed * 100000 + i, "sleep": sl, "nscen": 3 if sl else 5, "weight": 2 if sl else 1})
   return out
 
 
